@@ -7,8 +7,7 @@ def one(exe, depth, modes, with_data, d, tag):
     out = os.path.join(d, 'out_%s.json' % tag)
     env = dict(os.environ)
     if with_data:
-        gadir = os.path.join(d, 'ga')
-        gadata.install_tree(gadir)
+        gadir = os.path.join(d, 'ga')  # written once by run() before the worker threads start
         env['BXDECAY0_DBD_GA_DATA_DIR'] = gadir
     else:
         env.pop('BXDECAY0_DBD_GA_DATA_DIR', None)
@@ -26,6 +25,7 @@ def one(exe, depth, modes, with_data, d, tag):
 def run(tier, rep):
     exe = vlib.build_harness('checks/c09.cc', 'plain')
     d = vlib.scratch('c09')
+    gadata.install_tree(os.path.join(d, 'ga'))
     runs = []
     if tier == 'quick':
         import concurrent.futures as cf
